@@ -22,6 +22,8 @@ pub enum StoreFault {
     /// intact): these formats carry checksums the readers validate. Other objects: as GetError.
     GetCorrupt,
     RenameError,
+    /// rename takes effect but reports an error (a copy-then-delete rename whose delete half failed)
+    RenameAmbiguous,
     DeleteError,
     /// list omits the last object
     ListIncomplete,
@@ -35,6 +37,7 @@ impl StoreFault {
             StoreFault::GetError => "store_get_error",
             StoreFault::GetCorrupt => "store_get_corrupt",
             StoreFault::RenameError => "store_rename_error",
+            StoreFault::RenameAmbiguous => "store_rename_ambiguous",
             StoreFault::DeleteError => "store_delete_error",
             StoreFault::ListIncomplete => "store_list_incomplete",
         }
@@ -65,6 +68,8 @@ pub struct StoreInner {
     /// fault at the n-th operation (0-based) issued through the handle of actor `who`
     pub who_plan: BTreeMap<(u32, u64), StoreFault>,
     pub who_ops: BTreeMap<u32, u64>,
+    /// one-shot: the next rename issued by this actor gets this fault
+    pub next_rename_fault: BTreeMap<u32, StoreFault>,
     pub fired: Vec<(u64, StoreFault)>,
     pub events: Vec<StoreEvent>,
     pub images: Vec<CrashImage>,
@@ -215,10 +220,16 @@ impl ObjectStore for SimStore {
             if self.inner.lock().unwrap().yield_each_op { YieldOnce(false).await; }
             let mut d = self.inner.lock().unwrap();
             let (op, fault) = SimStore::begin(&mut d, self.who);
+            let fault = fault.or_else(|| d.next_rename_fault.remove(&self.who));
             SimStore::image(&mut d, op, "before");
             let mut applied = None;
             let res = match fault {
                 Some(StoreFault::RenameError) => { applied = fault; Err(SimStore::injected("rename error")) }
+                Some(StoreFault::RenameAmbiguous) => {
+                    applied = fault;
+                    if let Some(v) = d.objs.remove(from) { d.objs.insert(to.to_string(), v); }
+                    Err(SimStore::injected("rename: the source could not be removed after the copy"))
+                }
                 _ => match d.objs.remove(from) {
                     Some(v) => { d.objs.insert(to.to_string(), v); Ok(()) }
                     None => Err(IoError::new(ErrorKind::NotFound, format!("not found: {}", from))),
